@@ -21,7 +21,8 @@ func (e *Exec) global(g *ssa.Global) *Value {
 	*c = e.zero(t)
 	if !inModule(g.Pkg) {
 		// sentinel errors of packages whose initialisers are not run
-		if types.Identical(t, e.w.errorIface()) && strings.HasPrefix(g.Name(), "E") {
+		if types.Identical(t, e.w.errorIface()) && (strings.HasPrefix(g.Name(), "E") ||
+			(g.Name() == "NotFound" && strings.HasSuffix(g.Pkg.Pkg.Path(), "protobuf/reflect/protoregistry"))) {
 			p := new(Value)
 			*p = &opaque{kind: "error", desc: g.Pkg.Pkg.Path() + "." + g.Name()}
 			*c = iface{t: opaqueErrT, v: p}
